@@ -664,6 +664,52 @@ def rule_integer_side(repo, rule):
                 "representable step: PrivVal(3) < PrivValFxp(3.5) yields 0", "intside/cmp/%s" % mn)
 
 
+def rule_floor_direction(repo, rule):
+    """Division and multiplication of representations round DOWN (floor).  Floor does not commute with negation
+    (-floor(x) = ceil(-x)), so inside the dividing / rescaling operators no result of a division may be negated, and no
+    operand may be negated on the way into one: `-(a / -b)` is the ceiling of a / b whenever the quotient is inexact."""
+    ci = repo.cls(FX, "LinCombFxp")
+    DIV = ("__truediv__", "__floordiv__", "__rtruediv__", "__rfloordiv__", "__divmod__", "__rdivmod__", "__mod__", "__rmod__", "__mul__", "__rmul__")
+    n = 0
+    for name in DIV:
+        fi = ci.methods.get(name)
+        if fi is None or not isinstance(fi.node, ast.FunctionDef):
+            continue
+
+        def divides(e):
+            for x in ast.walk(e):
+                if isinstance(x, ast.BinOp) and isinstance(x.op, (ast.FloorDiv, ast.Div, ast.Mod)):
+                    return True
+                if isinstance(x, ast.Call) and norm(x.func).split(".")[-1] in DIV + ("divmod",):
+                    return True
+            return False
+        negs = [x for x in ast.walk(fi.node) if isinstance(x, ast.UnaryOp) and isinstance(x.op, ast.USub) and not isinstance(x.operand, ast.Constant)]
+        # a negation applied to something computed by a division, or feeding one
+        bad = None
+        for x in negs:
+            if divides(x.operand):
+                bad = (x, "the result of a rounding division is negated")
+                break
+            for p_ in parents(x):
+                if isinstance(p_, ast.Call) and norm(p_.func).split(".")[-1] in DIV + ("divmod",) and any(x is a or any(x is y for y in ast.walk(a)) for a in p_.args):
+                    bad = (x, "a negated operand is passed into a rounding division")
+                    break
+                if isinstance(p_, ast.BinOp) and isinstance(p_.op, (ast.FloorDiv, ast.Div, ast.Mod)):
+                    bad = (x, "a negated operand takes part in a rounding division")
+                    break
+                if isinstance(p_, ast.stmt):
+                    break
+            if bad:
+                break
+        n += 1
+        if bad:
+            rule.violation(fi.loc(bad[0]), fi.fq, norm(bad[0])[:80], "%s: floor(-x) is not -floor(x), so the result is the ceiling of the "
+                           "true quotient whenever it is inexact" % bad[1], "%s/neg-floor" % fi.qual)
+        else:
+            rule.ok(fi.loc(), fi.fq, "%s: no negation around or inside the rounding step" % name)
+    return n
+
+
 def rule_fxp_comparisons(repo, rule):
     """The six comparison operators of LinCombFxp test the relation they name between the REPRESENTATIONS s = self.lc and
     o = _ensurefxp(other).lc (both at scale 2^r, so a strict comparison steps by one representation unit): either by
@@ -724,6 +770,8 @@ def check(repo, rep, tier):
     rule_reflected(repo, r2)
     r3 = rep.rule("R-C14-3", "the resolution is read at call time (holds for every resolution setting)", floor=1)
     config_read_at_call_time(repo, r3, FX, "resolution", "scaling")
+    r6 = rep.rule("R-C14-6", "rounding is towards minus infinity: no negation is moved across a floor division", floor=5)
+    rule_floor_direction(repo, r6)
     r5 = rep.rule("R-C14-5", "fixed-point comparisons test the named relation between the two representations", floor=6)
     rule_fxp_comparisons(repo, r5)
     r4 = rep.rule("R-C14-4", "the integer-secret class rejects or defers fixed-point operands (no unscaled arithmetic on v*2^r)", floor=6)
